@@ -6,6 +6,9 @@ Three case kinds, each a pure JSON description:
   radon  : N, angle list, theta dtype, B image specs, a linear-combination partner
   iradon : N, angle list, theta dtype, filter, circle flag, B sinogram specs, a partner
   filter : padded size, filter name
+plus a small stratum of LARGE radon / iradon problems ("large": true, N 64..256, 60..512 angles
+given as a compact description, B 1..3; grid LARGE_QUICK / LARGE_THOROUGH) that reaches the
+size-dependent paths (tiling, chunking, caches) an N <= 48 search never enters.
 
 Tolerances: the torch pipeline is float32, the references are float64 evaluated on the identical
 float32 inputs.  Error models (scale) and allowed multiples K:
@@ -19,6 +22,8 @@ float32 inputs.  Error models (scale) and allowed multiples K:
 Largest error/scale measured on the corrected tree over 8 x 30 000 targeted cases: radon 0.65,
 theta=0 0.40, radon linearity 0.39, iradon 1.95, iradon linearity 0.32, filter 2.23 (exhaustive) -
 every K leaves >= 12x head-room, while the sensitivity mutants produce ratios of 50 .. 5e6.
+On the large problems the same scales and K apply; measured there (408 cases): radon 0.17,
+theta=0 0.10, iradon 0.06.
 The largest ratio of each run is written to the evidence file (`extra`)."""
 
 from __future__ import annotations
@@ -152,7 +157,8 @@ def iradon_cases(draw):
 # Large problems: (kind, N, A, B, filter, circle).  Implementations that tile / cache / chunk by
 # problem size only change path beyond some B * output_size^2 * A; the grid below puts a case just
 # below and just above 2^20, 2^22 and 2^24 and uses every filter name.  Every run judges every
-# row once (quick) - Hypothesis draws the contents (seeds, angle offsets, theta dtype, types).
+# row twice (quick; thorough: six times per worker) - Hypothesis draws the contents (seeds, angle
+# offsets or random angle sets, theta dtype, image / sinogram types).
 LARGE_QUICK = [
     ("iradon", 64, 60, 1, "ramp", True),  # 2^17.9
     ("iradon", 64, 180, 2, "cosine", True),  # 2^20.5  just above 2^20
@@ -162,15 +168,15 @@ LARGE_QUICK = [
     ("iradon", 128, 360, 3, "shepp-logan", True),  # 2^24.1  just above 2^24
     ("radon", 96, 180, 3, None, True),  # 2^22.2
     ("radon", 181, 120, 1, None, True),  # 2^21.9, odd N
+    ("iradon", 128, 180, 2, "ramp", False),  # circle=False, output 90: 2^21.5
+    ("iradon", 181, 180, 3, "ramp", True),  # 2^24.1, odd N
+    ("radon", 128, 360, 3, None, True),  # 2^24.1
 ]
 LARGE_THOROUGH = LARGE_QUICK + [
-    ("iradon", 128, 180, 2, "ramp", False),  # circle=False, output 90: 2^21.5
-    ("iradon", 181, 180, 3, "ramp", True),  # 2^24.1
     ("iradon", 181, 360, 3, "hann", True),  # 2^25.1
     ("iradon", 256, 360, 2, "cosine", True),  # 2^25.5
     ("iradon", 65, 512, 2, "shepp-logan", True),  # many angles, 2^22.0
     ("iradon", 127, 90, 3, "hamming", False),  # odd, circle=False
-    ("radon", 128, 360, 3, None, True),  # 2^24.1
     ("radon", 256, 180, 2, None, True),  # 2^24.5
     ("radon", 64, 512, 1, None, True),  # 2^21
 ]
@@ -182,7 +188,7 @@ def large_cases(draw, row):
     dtype = draw(st.sampled_from(["float32", "float64"]))
     if draw(st.sampled_from(["even", "even", "random"])) == "even":
         step = 180.0 / A
-        off = draw(st.floats(0.0, step * 0.999, allow_nan=False, width=32))
+        off = step * draw(st.integers(0, 999)) / 1000.0
         angles = {"n": A, "mode": "even", "offset": off}
     else:
         angles = {"n": A, "mode": "random", "seed": draw(SEEDS)}
@@ -415,11 +421,11 @@ def search(ctx):
         for fname in ref.FILTERS:
             check(ctx, {"kind": "filter", "size": size, "filter": fname})
     ctx.extra["filter_cases_enumerated_exhaustively"] = True
-    # large problems: every row of the grid, once (quick) or three times (thorough, per worker)
+    # large problems: every row of the grid, twice (quick) or six times (thorough, per worker)
     for k, row in enumerate(LARGE_THOROUGH if ctx.thorough else LARGE_QUICK):
-        core.run_given(ctx, "large-%d" % k, large_cases(row), lambda c: check(ctx, c), ctx.n(1, 3), shrink=False)
+        core.run_given(ctx, "large-%d" % k, large_cases(row), lambda c: check(ctx, c), ctx.n(2, 6), shrink=False)
     # thorough: several independently seeded Hypothesis runs per worker instead of one long one
     chunks = 1 if not ctx.thorough else 6
     for k in range(chunks):
-        core.run_given(ctx, "radon-%d" % k, radon_cases(), lambda c: check(ctx, c), ctx.n(1500, 2500))
-        core.run_given(ctx, "iradon-%d" % k, iradon_cases(), lambda c: check(ctx, c), ctx.n(1500, 2500))
+        core.run_given(ctx, "radon-%d" % k, radon_cases(), lambda c: check(ctx, c), ctx.n(1250, 2500))
+        core.run_given(ctx, "iradon-%d" % k, iradon_cases(), lambda c: check(ctx, c), ctx.n(1250, 2500))
